@@ -48,8 +48,15 @@ def make_tree(rng, d):
             txt = "SELECT a  FROM t -- " + "x" * 4100 + "\n"     # over the byte limit: skipped
         else:
             txt = "select 1\n"
+        if rng.random() < 0.3:
+            # in-file configuration: applies to this file only, whatever else is linted in the same run or directory
+            txt = rng.choice(["-- sqlfluff:rules:capitalisation.keywords:capitalisation_policy:lower\n", "-- sqlfluff:exclude_rules:LT01,CP01\n",
+                              "-- sqlfluff:rules:LT01\n", "-- sqlfluff:max_line_length:30\n", "-- sqlfluff:dialect:postgres\n"]) + txt
         open(os.path.join(d, name), "w").write(txt)
         names.append(name)
+    if rng.random() < 0.5:
+        os.makedirs(os.path.join(d, "a"), exist_ok=True)
+        open(os.path.join(d, "a", ".sqlfluff"), "w").write("[sqlfluff]\n" + rng.choice(["exclude_rules = LT01\n", "max_line_length = 40\n", "rules = CP01,LT01\n"]))
     return names
 
 
@@ -72,7 +79,7 @@ def snapshot(d, names):
 
 
 def run(ctx, prove=True):
-    ctx.rule = ("directories of 5-8 generated files (clean, with violations, unparsable, oversized) linted and fixed with processes 1 (serial reference), "
+    ctx.rule = ("directories of 5-8 generated files (clean, with violations, unparsable, oversized, with in-file directives, nested config) linted and fixed with processes 1 (serial reference), "
                 "2 and 4, with seeded per-file worker delays (hook) and permuted path lists; each comparison = one (tree, mode, processes, delay seed, "
                 "path order); non-trivial = parallel run with an injected delay")
     if prove:
@@ -98,6 +105,8 @@ def run(ctx, prove=True):
                 for k in range(ctx.budget(1, 3)):
                     order = list(names); rng.shuffle(order)
                     variants.append((processes, rng.randint(1, 10 ** 6), order if k % 2 == 0 else ["."]))
+            # the serial runner with the paths in another order must agree with itself too
+            variants.append((1, None, list(reversed(names))))
             for (processes, dseed, order) in variants:
                 for fix in (False, True):
                     work = tempfile.mkdtemp(prefix="verif_c24w_")
